@@ -122,6 +122,7 @@ fn main() {
             clock::set_sim_thread(false);
             let outside = std::env::var("SIM_ENVSEAM_PROBE_LC_ALL").ok();
             println!("env seam: inside a call {:?}, outside {:?}, counts {:?}", inside, outside, envseam::take_counts());
+            println!("cpu-count seam works: {}", envseam::selftest_cpus());
             println!("env passthrough: PATH is {}", if std::env::var("PATH").map_or(false, |p| !p.is_empty()) { "visible" } else { "MISSING" });
         }
         "probe" => {
